@@ -73,7 +73,12 @@ VARIABLES
   last     \* label of the last action (for replay; not part of the VIEW)
 
 vars == <<layout, nacm, massS, massU, dsT, dsF, dm, gv, scd, cp, held, taint, last>>
-view == <<layout, nacm, massS, massU, dsT, dsF, dm, gv, scd, cp, held, taint>>
+(* group ids are names: renumber them by first occurrence                    *)
+NormHeld(hs) ==
+  [j \in 1..Len(hs) |->
+     LET firstj == CHOOSE a \in 1..j : hs[a].grp = hs[j].grp /\ \A b \in 1..(a - 1) : hs[b].grp # hs[j].grp
+     IN [hs[j] EXCEPT !.grp = Cardinality({hs[b].grp : b \in 1..firstj})]]
+view == <<layout, nacm, massS, massU, dsT, dsF, dm, gv, scd, cp, NormHeld(held), taint>>
 
 NoDM == [on |-> FALSE, fc |-> "cur", shared |-> FALSE, nac |-> "cur", cls |-> "plain", sr |-> "none"]
 NoCP == [on |-> FALSE, ok |-> TRUE, shared |-> FALSE]
@@ -97,9 +102,26 @@ DmFcReplaced == IF dm.on THEN [dm EXCEPT !.fc = "old", !.shared = FALSE, !.sr = 
 DmFcInPlace  == IF dm.on THEN [dm EXCEPT !.fc = IF dm.shared THEN dm.fc ELSE "old", !.sr = Age(dm.sr)] ELSE dm
 DmNacChanged == IF dm.on THEN [dm EXCEPT !.nac = "old", !.sr = Age(dm.sr)] ELSE dm
 
-(* handles                                                                   *)
-NewHandle(c) == [cls |-> c, alias |-> c \in Alias, ok |-> TRUE]
-Hand(hs, c) == IF Len(hs) < MaxHeld THEN Append(hs, NewHandle(c)) ELSE hs
+(* handles [cls, alias, ok, grp]: alias = the object IS (part of) the current *)
+(* internal object of its slot; ok = its content is what the caller made it; *)
+(* handles with the same grp are one and the same object (a getter that      *)
+(* returns the internal object returns the same object every time, and it is *)
+(* the caller's own object if the setter kept that)                          *)
+ObjKind(c) == CASE c \in {"fc_setter", "fc_getter"} -> "fc"
+                [] c \in {"nac_setter", "nac_getter"} -> "nac"
+                [] c \in {"dataset_setter", "dataset_getter"} -> "dsdict"
+                [] c \in {"forces_setter", "forces_getter"} -> "forces"
+                [] c \in {"masses_setter", "masses_getter"} -> "marr"
+                [] OTHER -> c
+FreshGrp(hs) == LET used == {hs[j].grp : j \in 1..Len(hs)}
+                    free == (1..(Len(hs) + 1)) \ used
+                IN CHOOSE g \in free : \A x \in free : g <= x
+NewHandle(hs, c) ==
+  LET al == c \in Alias
+      twins == {j \in 1..Len(hs) : hs[j].alias /\ ObjKind(hs[j].cls) = ObjKind(c)}
+  IN [cls |-> c, alias |-> al, ok |-> TRUE,
+      grp |-> IF al /\ twins # {} THEN hs[CHOOSE j \in twins : TRUE].grp ELSE FreshGrp(hs)]
+Hand(hs, c) == IF Len(hs) < MaxHeld THEN Append(hs, NewHandle(hs, c)) ELSE hs
 (* the internal object of the slots in sl is REPLACED: old handles stop aliasing *)
 Unalias(hs, sl) ==
   [i \in 1..Len(hs) |-> IF SlotOf(hs[i].cls) \in sl THEN [hs[i] EXCEPT !.alias = FALSE] ELSE hs[i]]
@@ -239,15 +261,16 @@ Get(c) ==
   /\ Len(held) < MaxHeld
   /\ SlotSet(SlotOf(c))
   /\ c \in {"displacements_getter", "forces_getter"} => dsT = "t2"   \* type-1: a new list is assembled
-  /\ held' = Append(held, NewHandle(c))
+  /\ held' = Append(held, NewHandle(held, c))
   /\ last' = [op |-> "Get", cls |-> c]
   /\ UNCHANGED <<layout, nacm, massS, massU, dsT, dsF, dm, gv, scd, cp, taint>>
 
 (* queries.  "qp" run_qpoints; "qpgv" run_qpoints with group velocities;     *)
 (* "dmq" get_dynamical_matrix_at_q / get_frequencies (these call             *)
-(* _set_dynamical_matrix themselves); "gvq" get_group_velocity_at_q          *)
-QueryKinds == {"qp", "qpgv", "dmq", "gvq"}
-UsesGV(k) == k \in {"qpgv", "gvq"}
+(* _set_dynamical_matrix themselves); "gvq" get_group_velocity_at_q;         *)
+(* "mesh"/"meshgv" run_mesh; "band"/"bandgv" run_band_structure              *)
+QueryKinds == {"qp", "qpgv", "dmq", "gvq", "mesh", "meshgv", "band", "bandgv"}
+UsesGV(k) == k \in {"qpgv", "gvq", "meshgv", "bandgv"}
 (* the caches after the side effects of a query of kind k                    *)
 DmAfterQuery(k) ==
   LET d0 == IF k = "dmq" /\ "DmqNoRebuild" \notin Forget THEN Rebuilt(nacm) ELSE dm
@@ -270,10 +293,11 @@ MutateHandle(i) ==
   /\ held[i].alias => EnvAliased
   /\ LET h == held[i]
          sl == SlotOf(h.cls)
-         hs == [held EXCEPT ![i] = [h EXCEPT !.ok = TRUE]]
+         \* the caller knows which of its references are one object
+         hs == [j \in 1..Len(held) |-> IF held[j].grp = h.grp THEN [held[j] EXCEPT !.ok = TRUE] ELSE held[j]]
      IN IF h.alias
           THEN /\ held' = [j \in 1..Len(hs) |->
-                             IF j # i /\ hs[j].alias /\ SlotOf(hs[j].cls) = sl
+                             IF hs[j].grp # h.grp /\ hs[j].alias /\ SlotOf(hs[j].cls) = sl
                                THEN [hs[j] EXCEPT !.ok = FALSE] ELSE hs[j]]
                /\ taint' = taint \cup {h.cls}
                /\ dm' = CASE sl = "fc" -> DmFcInPlace
